@@ -98,7 +98,20 @@ inductive Shape (cfg : Cfg α) (name : Bytes) (st : St α) : Prop where
 /-- the handler never switches protocols (101 hijacks the connection: no HTTP body follows) -/
 def No101 (ops : List (Op α)) : Prop := ∀ op ∈ ops, op ≠ Op.writeHeader 101
 
+/-- what a handler may do before it announces its final status: edit headers, send informational (1xx,
+    not 101) responses -/
+def Preliminary (op : Op α) : Prop :=
+  (∃ k v, op = Op.hset k v) ∨ (∃ k v, op = Op.hadd k v) ∨ (∃ k, op = Op.hdel k) ∨
+    (∃ i, op = Op.writeHeader i ∧ is1xx i = true ∧ i ≠ 101)
+
 end
+
+/-- all the bytes a handler wrote, when payloads are byte strings -/
+def writtenBytes (ops : List (Op Bytes)) : Bytes :=
+  (ops.map (fun op => match op with
+    | .write p => p
+    | .readFrom cs => cs.flatten
+    | _ => [])).flatten
 
 /-! ### entity tags -/
 
